@@ -30,9 +30,13 @@ class SigchldHelper:
             self._write_pipe, warn_on_full_buffer=False
         )
         existing_handler = signal.signal(signal.SIGCHLD, SigchldHelper._handler)
+        # We depend on SIGCHLD being delivered. The signal mask is inherited:
+        # whoever started us may have left SIGCHLD blocked.
+        existing_mask = signal.pthread_sigmask(signal.SIG_UNBLOCK, {signal.SIGCHLD})
         try:
             yield
         finally:
+            signal.pthread_sigmask(signal.SIG_SETMASK, existing_mask)
             signal.signal(signal.SIGCHLD, existing_handler)
             signal.set_wakeup_fd(existing_wakeup_fd)
             os.close(self._write_pipe)
